@@ -25,6 +25,8 @@ CONSTANT PinnedMerge    \* TRUE: op_merge as at the pinned commit (m_done never 
 (* node table construction *)
 
 NoBn == <<>>      \* empty function: name -> bind node
+RECURSIVE Concat0(_)
+Concat0(ss) == IF Len(ss) = 0 THEN <<>> ELSE Head(ss) \o Concat0(Tail(ss))
 
 AddNode(st, node) == [st EXCEPT !.ops = Append(@, node)]
 LastId(st) == Len(st.ops)
@@ -44,79 +46,102 @@ AltBranches(p) ==
       [] p.k = "opt" -> AltBranches(p.a) \o <<Emp>>
       [] OTHER -> <<p>>
 
-RECURSIVE Build(_, _, _, _)
-RECURSIVE BuildFmt(_, _, _, _, _)
-RECURSIVE BuildTines(_, _, _, _, _, _)
-\* returns [st, top, bn]
-Build(p, up, st, bn) ==
-    LET same(st1) == [st |-> st1, top |-> LastId(st1), bn |-> bn]
-        sub(a, st0) ==       \* a sub-chain with its own origin and scope
+\* `uv' is the up-value table of the enclosing block (uprefs): the names it has referenced from
+\* outside so far, in the order of their ids.  Build returns [st, top, bn, uv].
+UvId(uv, name) == IF \E i \in 1..Len(uv) : uv[i] = name THEN (CHOOSE i \in 1..Len(uv) : uv[i] = name) - 1 ELSE Len(uv)
+UvAdd(uv, name) == IF \E i \in 1..Len(uv) : uv[i] = name THEN uv ELSE Append(uv, name)
+
+RECURSIVE Build(_, _, _, _, _)
+RECURSIVE BuildFmt(_, _, _, _, _, _)
+RECURSIVE BuildTines(_, _, _, _, _, _, _)
+RECURSIVE BuildCaptures(_, _, _, _, _, _)
+Build(p, up, st, bn, uv) ==
+    LET same(st1) == [st |-> st1, top |-> LastId(st1), bn |-> bn, uv |-> uv]
+        sameU(st1, uv1) == [st |-> st1, top |-> LastId(st1), bn |-> bn, uv |-> uv1]
+        sub(a, st0, uv0) ==       \* a sub-chain with its own origin and scope
             LET st1 == AddNode(st0, [k |-> "origin"])
                 o == LastId(st1)
-                r == Build(a, o, st1, bn)
-            IN [st |-> r.st, origin |-> o, op |-> r.top]
+                r == Build(a, o, st1, bn, uv0)
+            IN [st |-> r.st, origin |-> o, op |-> r.top, uv |-> r.uv]
+        \* a block: body built against a fresh frame and a fresh up-value table, then the captured
+        \* values are pushed (highest id first) and op_lex_closure pops them
+        block(ids, a, up0, st0, uv0) ==
+            LET st1 == AddNode(st0, [k |-> "origin"])
+                o == LastId(st1)
+                r == Build(Scope(ids, a), o, st1, NoBn, <<>>)
+                caps == BuildCaptures(r.uv, Len(r.uv), up0, r.st, bn, uv0)
+                st2 == AddNode(caps.st, [k |-> "lexclo", up |-> caps.top, n |-> Len(r.uv), origin |-> o, op |-> r.top])
+            IN [st |-> st2, top |-> LastId(st2), uv |-> caps.uv]
     IN
     CASE p.k = "emp" -> same(AddNode(st, [k |-> "nop", up |-> up]))
       [] p.k = "lit" -> same(AddNode(st, [k |-> "const", up |-> up, v |-> IntV(p.n)]))
+      [] p.k = "elist" -> same(AddNode(st, [k |-> "const", up |-> up, v |-> SeqV(<<>>)]))
       [] p.k = "str" -> same(AddNode(st, [k |-> "const", up |-> up, v |-> StrV(p.w)]))
       [] p.k = "word" ->
-            IF p.w \in CmpWords \cup {"?empty", "!empty"}
+            IF p.w \in CmpWords \cup {"?empty", "!empty", "?find", "!find", "?starts", "!starts", "?ends", "!ends"}
             THEN LET st1 == AddNode(st, [k |-> "pword", w |-> p.w])
                  IN same(AddNode(st1, [k |-> "assert", up |-> up, pred |-> LastId(st1)]))
+            ELSE IF p.w = "apply" THEN same(AddNode(st, [k |-> "apply", up |-> up, skip |-> FALSE]))
             ELSE same(AddNode(st, [k |-> "word", up |-> up, w |-> p.w]))
       [] p.k = "posw" ->
             LET st1 == AddNode(st, [k |-> "ppos", n |-> p.n])
                 st2 == IF p.p THEN st1 ELSE AddNode(st1, [k |-> "pnot", a |-> LastId(st1)])
             IN same(AddNode(st2, [k |-> "assert", up |-> up, pred |-> LastId(st2)]))
       [] p.k = "name" ->
-            same(AddNode(st, [k |-> "read", up |-> up, src |-> bn[p.w]]))
+            \* READ: a name of this frame, or an up-value of the enclosing block; then op_apply (skip non-closures)
+            IF p.w \in DOMAIN bn
+            THEN LET st1 == AddNode(st, [k |-> "read", up |-> up, src |-> bn[p.w]])
+                 IN same(AddNode(st1, [k |-> "apply", up |-> LastId(st1), skip |-> TRUE]))
+            ELSE LET st1 == AddNode(st, [k |-> "upread", up |-> up, id |-> UvId(uv, p.w)])
+                 IN sameU(AddNode(st1, [k |-> "apply", up |-> LastId(st1), skip |-> TRUE]), UvAdd(uv, p.w))
       [] p.k = "cat" ->
-            LET r == Build(p.a, up, st, bn) IN Build(p.b, r.top, r.st, r.bn)
+            LET r == Build(p.a, up, st, bn, uv) IN Build(p.b, r.top, r.st, r.bn, r.uv)
       [] p.k \in {"alt", "opt"} ->
             \* ALT: a merge with one tine per branch; nested ALTs are flattened by
             \* tree::create_cat; E? is ALT (E, NOP)
             LET brs == AltBranches(p)
                 st0 == AddNode(st, [k |-> "merge", up |-> up, branches |-> <<>>])
                 m == LastId(st0)
-                r == BuildTines(brs, 1, m, st0, bn, <<>>)
+                r == BuildTines(brs, 1, m, st0, bn, <<>>, uv)
                 fin == [r.st EXCEPT !.ops[m].branches = r.tops]
-            IN [st |-> fin, top |-> m, bn |-> bn]
+            IN [st |-> fin, top |-> m, bn |-> bn, uv |-> r.uv]
       [] p.k = "or" ->
             LET st0 == AddNode(st, [k |-> "or", up |-> up, branches |-> <<>>])
                 o == LastId(st0)
-                s1 == sub(p.a, st0)
-                s2 == sub(p.b, s1.st)
+                s1 == sub(p.a, st0, uv)
+                s2 == sub(p.b, s1.st, s1.uv)
                 fin == [s2.st EXCEPT !.ops[o].branches =
                            <<[o |-> s1.origin, op |-> s1.op], [o |-> s2.origin, op |-> s2.op]>>]
-            IN [st |-> fin, top |-> o, bn |-> bn]
+            IN [st |-> fin, top |-> o, bn |-> bn, uv |-> s2.uv]
       [] p.k = "scope" ->
-            LET b == BuildBinds(p.ids, up, st, bn)
-                r == Build(p.a, b.top, b.st, b.bn)
-            IN [st |-> r.st, top |-> r.top, bn |-> bn]
+            IF Len(p.ids) = 0 THEN Build(p.a, up, st, bn, uv)      \* plain parentheses: no scope
+            ELSE LET b == BuildBinds(p.ids, up, st, bn)
+                     r == Build(p.a, b.top, b.st, b.bn, uv)
+                 IN [st |-> r.st, top |-> r.top, bn |-> bn, uv |-> r.uv]
       [] p.k = "cap" ->
             LET b == BuildBinds(p.ids, up, st, bn)
                 st1 == AddNode(b.st, [k |-> "origin"])
                 o == LastId(st1)
-                r == Build(p.a, o, st1, b.bn)
-            IN same(AddNode(r.st, [k |-> "capture", up |-> b.top, origin |-> o, op |-> r.top]))
+                r == Build(p.a, o, st1, b.bn, uv)
+            IN sameU(AddNode(r.st, [k |-> "capture", up |-> b.top, origin |-> o, op |-> r.top]), r.uv)
       [] p.k = "sub" ->
             LET st1 == AddNode(st, [k |-> "origin"])
                 o == LastId(st1)
                 b == BuildBinds(p.ids, o, st1, bn)
-                r == Build(p.a, b.top, b.st, b.bn)
+                r == Build(p.a, b.top, b.st, b.bn, uv)
                 st2 == AddNode(r.st, [k |-> "psubx", origin |-> o, op |-> r.top])
                 st3 == IF p.w = "?" THEN st2 ELSE AddNode(st2, [k |-> "pnot", a |-> LastId(st2)])
-            IN same(AddNode(st3, [k |-> "assert", up |-> up, pred |-> LastId(st3)]))
+            IN sameU(AddNode(st3, [k |-> "assert", up |-> up, pred |-> LastId(st3)]), r.uv)
       [] p.k = "infix" ->
             \* ?(let ~a~ := A; let ~b~ := B; ~a~ ~b~ OP)
             LET st1 == AddNode(st, [k |-> "origin"])
                 o == LastId(st1)
-                sa == sub(p.a, st1)
+                sa == sub(p.a, st1, uv)
                 xa == AddNode(sa.st, [k |-> "subx", up |-> o, origin |-> sa.origin,
                                       op |-> sa.op, keep |-> 1])
                 ba == AddNode(xa, [k |-> "bind", up |-> LastId(xa)])
                 ida == LastId(ba)
-                sb == sub(p.b, ba)
+                sb == sub(p.b, ba, sa.uv)
                 xb == AddNode(sb.st, [k |-> "subx", up |-> ida, origin |-> sb.origin,
                                       op |-> sb.op, keep |-> 1])
                 bb == AddNode(xb, [k |-> "bind", up |-> LastId(xb)])
@@ -126,51 +151,72 @@ Build(p, up, st, bn) ==
                 pw == AddNode(rb, [k |-> "pword", w |-> InfixWord(p.w)])
                 as == AddNode(pw, [k |-> "assert", up |-> LastId(rb), pred |-> LastId(pw)])
                 ps == AddNode(as, [k |-> "psubx", origin |-> o, op |-> LastId(as)])
-            IN same(AddNode(ps, [k |-> "assert", up |-> up, pred |-> LastId(ps)]))
+            IN sameU(AddNode(ps, [k |-> "assert", up |-> up, pred |-> LastId(ps)]), sb.uv)
       [] p.k = "let" ->
-            LET s == sub(p.a, st)
+            LET s == sub(p.a, st, uv)
                 x == AddNode(s.st, [k |-> "subx", up |-> up, origin |-> s.origin, op |-> s.op,
                                     keep |-> Len(p.ids)])
-            IN BuildBinds(p.ids, LastId(x), x, bn)
+                b == BuildBinds(p.ids, LastId(x), x, bn)
+            IN [st |-> b.st, top |-> b.top, bn |-> b.bn, uv |-> s.uv]
       [] p.k = "if" ->
-            LET c == sub(p.c, st)
-                t == sub(p.a, c.st)
-                e == sub(p.b, t.st)
-            IN same(AddNode(e.st, [k |-> "ifelse", up |-> up,
-                                   co |-> c.origin, cop |-> c.op, to |-> t.origin, top |-> t.op,
-                                   eo |-> e.origin, eop |-> e.op]))
+            LET c == sub(p.c, st, uv)
+                t == sub(p.a, c.st, c.uv)
+                e == sub(p.b, t.st, t.uv)
+            IN sameU(AddNode(e.st, [k |-> "ifelse", up |-> up,
+                                    co |-> c.origin, cop |-> c.op, to |-> t.origin, top |-> t.op,
+                                    eo |-> e.origin, eop |-> e.op]), e.uv)
       [] p.k \in {"star", "plus"} ->
-            LET s == sub(p.a, st) IN
-            same(AddNode(s.st, [k |-> "closure", up |-> up, origin |-> s.origin, op |-> s.op,
-                                plus |-> (p.k = "plus")]))
+            LET s == sub(p.a, st, uv) IN
+            sameU(AddNode(s.st, [k |-> "closure", up |-> up, origin |-> s.origin, op |-> s.op,
+                                 plus |-> (p.k = "plus")]), s.uv)
       [] p.k = "fmt" ->
-            LET st1 == AddNode(st, [k |-> "sorigin"])
-                so == LastId(st1)
-                r == BuildFmt(p.parts, Len(p.parts), so, st1, bn)
-            IN same(AddNode(r.st, [k |-> "format", up |-> up, sorigin |-> so, stringer |-> r.top]))
+            \* a format string without splices is simplified to a string constant
+            IF \A i \in 1..Len(p.parts) : "lit" \in DOMAIN p.parts[i]
+            THEN same(AddNode(st, [k |-> "const", up |-> up,
+                                   v |-> StrV(Concat0([i \in 1..Len(p.parts) |-> p.parts[i].lit]))]))
+            ELSE LET st1 == AddNode(st, [k |-> "sorigin"])
+                     so == LastId(st1)
+                     r == BuildFmt(p.parts, Len(p.parts), so, st1, bn, uv)
+                 IN sameU(AddNode(r.st, [k |-> "format", up |-> up, sorigin |-> so, stringer |-> r.top]), r.uv)
+      [] p.k = "block" ->
+            LET b == block(p.ids, p.a, up, st, uv) IN [st |-> b.st, top |-> b.top, bn |-> bn, uv |-> b.uv]
+      [] p.k = "bapply" ->
+            LET b == block(<<>>, p.a, up, st, uv) IN
+            sameU(AddNode(b.st, [k |-> "apply", up |-> b.top, skip |-> FALSE]), b.uv)
+      [] p.k = "letf" -> Build(Let(<<p.w>>, Block(<<>>, p.a)), up, st, bn, uv)
 
-BuildTines(brs, j, m, st, bn, tops) ==
-    IF j > Len(brs) THEN [st |-> st, tops |-> tops]
+\* the captured values of a block, pushed from the highest id down: a name of the enclosing frame is
+\* read directly, anything else is an up-value of the enclosing block
+BuildCaptures(names, j, up, st, bn, uv) ==
+    IF j = 0 THEN [st |-> st, top |-> up, uv |-> uv]
+    ELSE IF names[j] \in DOMAIN bn
+    THEN LET st1 == AddNode(st, [k |-> "read", up |-> up, src |-> bn[names[j]]])
+         IN BuildCaptures(names, j - 1, LastId(st1), st1, bn, uv)
+    ELSE LET st1 == AddNode(st, [k |-> "upread", up |-> up, id |-> UvId(uv, names[j])])
+         IN BuildCaptures(names, j - 1, LastId(st1), st1, bn, UvAdd(uv, names[j]))
+
+BuildTines(brs, j, m, st, bn, tops, uv) ==
+    IF j > Len(brs) THEN [st |-> st, tops |-> tops, uv |-> uv]
     ELSE LET t == AddNode(st, [k |-> "tine", merge |-> m, idx |-> j])
-             r == Build(brs[j], LastId(t), t, bn)
-         IN BuildTines(brs, j + 1, m, r.st, bn, Append(tops, r.top))
+             r == Build(brs[j], LastId(t), t, bn, uv)
+         IN BuildTines(brs, j + 1, m, r.st, bn, Append(tops, r.top), r.uv)
 
 \* stringers are chained from the last part (next to the origin) to the first
-BuildFmt(parts, j, sup, st, bn) ==
-    IF j = 0 THEN [st |-> st, top |-> sup]
+BuildFmt(parts, j, sup, st, bn, uv) ==
+    IF j = 0 THEN [st |-> st, top |-> sup, uv |-> uv]
     ELSE IF "lit" \in DOMAIN parts[j]
     THEN LET st1 == AddNode(st, [k |-> "slit", up |-> sup, str |-> parts[j].lit])
-         IN BuildFmt(parts, j - 1, LastId(st1), st1, bn)
+         IN BuildFmt(parts, j - 1, LastId(st1), st1, bn, uv)
     ELSE LET st1 == AddNode(st, [k |-> "origin"])
              o == LastId(st1)
-             r == Build(parts[j].e, o, st1, bn)
+             r == Build(parts[j].e, o, st1, bn, uv)
              st2 == AddNode(r.st, [k |-> "sop", up |-> sup, origin |-> o, op |-> r.top])
-         IN BuildFmt(parts, j - 1, LastId(st2), st2, bn)
+         IN BuildFmt(parts, j - 1, LastId(st2), st2, bn, r.uv)
 
 \* A whole query: origin first, as zw_query_parse does.
 BuildQuery(p) ==
     LET st0 == AddNode([ops |-> <<>>], [k |-> "origin"])
-        r == Build(p, 1, st0, NoBn)
+        r == Build(p, 1, st0, NoBn, <<>>)
     IN [ops |-> r.st.ops, root |-> r.top]
 
 -----------------------------------------------------------------------------
@@ -191,10 +237,11 @@ InitState(node) ==
       [] node.k = "format" -> [fpos |-> 0]
       [] node.k = "sop" -> [str |-> <<>>]
       [] node.k = "ifelse" -> [sg |-> 0]
+      [] node.k = "apply" -> [sub |-> <<>>]      \* m_substate: <<>> or <<[clo, sc]>>
       [] OTHER -> [none |-> TRUE]
 
 HasState(node) == node.k \in {"origin", "sorigin", "word", "merge", "or", "subx", "closure",
-                              "bind", "format", "sop", "ifelse"}
+                              "bind", "format", "sop", "ifelse", "apply"}
 
 \* Machine state threaded through the big-step evaluation:
 \*   sc: the buffer, bad: a lifecycle violation happened (C13), err: diagnostics
@@ -217,7 +264,8 @@ DesSeq(ops, ids, j, m) == IF j > Len(ids) THEN m ELSE DesSeq(ops, ids, j + 1, De
 Con(ops, n, m) ==
     LET node == ops[n] IN
     CASE node.k \in {"origin", "sorigin"} -> ConOwn(ops, n, m)
-      [] node.k \in {"nop", "const", "assert", "read"} -> Con(ops, node.up, m)
+      [] node.k \in {"nop", "const", "assert", "read", "upread", "lexclo"} -> Con(ops, node.up, m)
+      [] node.k = "apply" -> Con(ops, node.up, ConOwn(ops, n, m))
       [] node.k = "word" -> Con(ops, node.up, ConOwn(ops, n, m))
       [] node.k = "tine" -> m           \* op_tine has no state_con: the merge owns the chain
       [] node.k = "merge" ->
@@ -238,7 +286,17 @@ Con(ops, n, m) ==
 Des(ops, n, m) ==
     LET node == ops[n] IN
     CASE node.k \in {"origin", "sorigin"} -> DesOwn(ops, n, m)
-      [] node.k \in {"nop", "const", "assert", "read"} -> Des(ops, node.up, m)
+      [] node.k \in {"nop", "const", "assert", "read", "upread", "lexclo"} -> Des(ops, node.up, m)
+      [] node.k = "apply" ->
+            \* a still engaged substate is destroyed with the state: ~substate destroys the
+            \* rendezvous, then its scon_guard runs state_des of the body on the private buffer
+            LET m1 == Des(ops, node.up, m)
+                m2 == IF IsDead(m1.sc[n]) \/ Len(m1.sc[n].sub) = 0 THEN m1
+                      ELSE LET sub == m1.sc[n].sub[1]
+                               d == Des(ops, sub.clo.b.op, [m1 EXCEPT !.sc = sub.sc])
+                           IN [d EXCEPT !.sc = m1.sc,
+                                        !.bad = d.bad \/ (\E i \in DOMAIN d.sc : ~IsDead(d.sc[i]))]
+            IN DesOwn(ops, n, m2)
       [] node.k = "word" -> DesOwn(ops, n, Des(ops, node.up, m))
       [] node.k = "tine" -> m
       [] node.k = "merge" ->
@@ -339,6 +397,51 @@ Nx(ops, n, m0) ==
                  IF mt.bad \/ Len(mt.sc[node.src].cur) = 0
                  THEN Null([mt EXCEPT !.bad = TRUE])     \* read of a name never bound
                  ELSE Ret(<<Push(Stk(x), mt.sc[node.src].cur[1])>>, mt)
+      [] node.k = "upread" ->
+            \* the rendezvous of the buffer this chain runs in names the closure being applied
+            IF Len(m.rdv) = 0 THEN Null([m EXCEPT !.bad = TRUE])
+            ELSE LET x == Nx(ops, node.up, m) IN
+                 IF IsNull(x) THEN x
+                 ELSE IF node.id + 1 > Len(m.rdv[1].e) THEN Null([x.m EXCEPT !.bad = TRUE])
+                 ELSE Ret(<<Push(Stk(x), m.rdv[1].e[node.id + 1])>>, x.m)
+      [] node.k = "lexclo" ->
+            LET x == Nx(ops, node.up, m) IN
+            IF IsNull(x) THEN x
+            ELSE IF Depth(Stk(x)) < node.n THEN Null([x.m EXCEPT !.hard = TRUE])
+            ELSE LET s == Stk(x)
+                     d == Depth(s)
+                     env == [i \in 1..node.n |-> s[d - i + 1]]     \* popped top first: env[1] is id 0
+                 IN Ret(<<Push(SubSeq(s, 1, d - node.n),
+                               [t |-> "c", b |-> [o |-> node.origin, op |-> node.op], e |-> env, pos |-> 0])>>,
+                        x.m)
+      [] node.k = "apply" ->
+            LET mt == Touch(m, n) IN
+            IF mt.bad THEN Null(mt)
+            ELSE IF Len(mt.sc[n].sub) = 0
+            THEN LET x == Nx(ops, node.up, mt) IN
+                 IF IsNull(x) THEN x
+                 ELSE IF Depth(Stk(x)) = 0 THEN Null([x.m EXCEPT !.hard = TRUE])
+                 ELSE IF Top(Stk(x)).t # "c"
+                 THEN (IF node.skip THEN x ELSE Nx(ops, n, [x.m EXCEPT !.err = @ + 1]))
+                 ELSE \* substate ctor: private scon over the closure's layout, state_con of the body,
+                      \* rendezvous constructed, the rest of the stack handed to the body's origin
+                      LET clo == Top(Stk(x))
+                          i0 == [x.m EXCEPT !.sc = [i \in DOMAIN x.m.sc |-> DEAD], !.rdv = <<>>]
+                          i1 == Con(ops, clo.b.op, i0)
+                          i2 == SetNext([i1 EXCEPT !.rdv = <<clo>>], clo.b.o, Pop1(Stk(x)))
+                          m1 == [i2 EXCEPT !.sc = [x.m.sc EXCEPT ![n].sub = <<[clo |-> clo, sc |-> i2.sc]>>],
+                                           !.rdv = x.m.rdv]
+                      IN Nx(ops, n, m1)
+            ELSE LET sub == mt.sc[n].sub[1]
+                     y == Nx(ops, sub.clo.b.op, [mt EXCEPT !.sc = sub.sc, !.rdv = <<sub.clo>>])
+                 IN IF ~IsNull(y)
+                    THEN Ret(y.res, [y.m EXCEPT !.sc = [mt.sc EXCEPT ![n].sub = <<[clo |-> sub.clo, sc |-> y.m.sc]>>],
+                                                !.rdv = mt.rdv])
+                    ELSE \* m_substate = nullptr
+                         LET d == Des(ops, sub.clo.b.op, y.m)
+                             leak == \E i \in DOMAIN d.sc : ~IsDead(d.sc[i])
+                         IN Nx(ops, n, [d EXCEPT !.sc = [mt.sc EXCEPT ![n].sub = <<>>], !.rdv = mt.rdv,
+                                                 !.bad = d.bad \/ leak])
       [] node.k = "bind" ->
             LET x == Nx(ops, node.up, Touch(m, n)) IN
             IF IsNull(x) THEN x
@@ -511,7 +614,7 @@ Fuel == 4000
 
 FreshMach(qq) ==
     LET dead == [i \in 1..Len(qq.ops) |-> DEAD]
-        m0 == [sc |-> dead, bad |-> FALSE, hard |-> FALSE, err |-> 0, fuel |-> Fuel]
+        m0 == [sc |-> dead, bad |-> FALSE, hard |-> FALSE, err |-> 0, fuel |-> Fuel, rdv |-> <<>>]
         m1 == Con(qq.ops, qq.root, m0)              \* scon_guard in zw_result
     IN SetNext(m1, 1, <<>>)                         \* origin.set_next (empty input stack)
 
@@ -519,6 +622,15 @@ RECURSIVE PullAll(_, _, _)
 PullAll(qq, m, acc) ==
     LET x == Nx(qq.ops, qq.root, [m EXCEPT !.fuel = Fuel]) IN
     IF IsNull(x) THEN [out |-> acc, m |-> x.m] ELSE PullAll(qq, x.m, Append(acc, Stk(x)))
+
+\* Closures are opaque in what a query yields: the meaning layer keeps the body's AST and the whole
+\* environment, the mechanism the compiled body and the captured values.  Compare them by position only.
+RECURSIVE NormV(_)
+NormV(v) == IF v.t = "c" THEN [t |-> "c", pos |-> v.pos]
+            ELSE IF v.t = "q" THEN [v EXCEPT !.q = [i \in 1..Len(v.q) |-> NormV(v.q[i])]]
+            ELSE v
+NormStk(s) == [i \in 1..Len(s) |-> NormV(s[i])]
+NormOut(o) == [i \in 1..Len(o) |-> NormStk(o[i])]
 
 EngineRun(p) == LET qq == BuildQuery(p) IN PullAll(qq, FreshMach(qq), <<>>)
 
